@@ -1,7 +1,7 @@
 (* C13 — lemma library, part 1: patches (jsonpatch as a Section variable), refutation
    witnesses.  The fragment/filter lemmas live in JsonFragProofs.v. *)
 From Coq Require Import List String Ascii Bool Arith ZArith.
-From Annet Require Import Base.Str Model.Json Spec.P_C13.
+From Annet Require Import Base.Str Model.Json Spec.P_C13 Proofs.JsonFragProofs.
 Import ListNotations.
 Open Scope string_scope.
 Open Scope list_scope.
@@ -47,11 +47,6 @@ Proof.
 Qed.
 
 (* ---------------------------------------------------------------- fragments: witnesses *)
-
-Definition frag_outcome (V : variant) (x : frag_in) : frag_out :=
-  let '(old, f, acl) := x in
-  let r := apply_fragment V old f acl in
-  (r, match r with Some r' => apply_fragment V r' f acl | None => None end).
 
 (* current tree: the pointer is rebuilt without RFC 6901 escaping; a key "a/b" is then read
    and written as member b of member a *)
